@@ -51,8 +51,11 @@ Vector<std::complex<T>> permanent_laplace_cpp(
 
     if (A.rows == 0 || A.cols == 0 || sum_rows == 0 || sum_cols == 0)
     {
-        Vector<TComplex> result(1);
-        result[0] = TComplex(1.0, 0.0);
+        // One value for each column (at least one): the permanent of an empty matrix is 1.
+        size_t result_size = cols.size() > 0 ? cols.size() : 1;
+        Vector<TComplex> result(result_size);
+        for (size_t i = 0; i < result_size; i++)
+            result[i] = TComplex(1.0, 0.0);
         return result;
     }
 
